@@ -300,7 +300,13 @@ fn check_reads(c: &ReadCase, ctx: &Ctx) -> Outcome {
         let fit = if c.k <= 31 { fit_inproc::<u64>(c, &s1, &s2) } else { fit_inproc::<u128>(c, &s1, &s2) };
         let fit = fit.map_err(|m| Outcome::Fail(format!("coverage counting/fit panicked: {m}")))?;
         let ks = c.k.to_string();
-        let mut args = vec!["cov", "r_1.fastq", "r_2.fastq", "-k", &ks];
+        // a third of the cases: gzip-compressed read files for the command line run
+        let gz = (c.k + c.coverage as usize) % 3 == 0;
+        if gz {
+            cli::gzip(&p1, &dir.join("r_1.fastq.gz"));
+            cli::gzip(&p2, &dir.join("r_2.fastq.gz"));
+        }
+        let mut args = if gz { vec!["cov", "r_1.fastq.gz", "r_2.fastq.gz", "-k", &ks] } else { vec!["cov", "r_1.fastq", "r_2.fastq", "-k", &ks] };
         if !c.rc {
             args.push("--single-strand");
         }
